@@ -40,3 +40,7 @@ Definition check_hist := mismatches history_ok.
 Definition trace_ok (c : nat * nat * list pevent) : bool :=
   let '(nS, nE, tr) := c in build_trace_ok nS nE tr.
 Definition check_trace := mismatches trace_ok.
+
+(* ---- the packet transcript of one real `esbuild --service` process ---- *)
+From V Require Import C20.ServiceSpec.
+Definition check_svc := mismatches svc_trace_ok.
